@@ -11,7 +11,8 @@ import (
 // of the Lean model's fold:
 //
 //	setters (wt um rs ev chk bf af rm inc): the last one wins; "=nil" switches the setting off again
-//	flags (xa cia gid nw ccb icb): once given they stay
+//	flags (xa cia gid nw): once given they stay
+//	ccb / ccb0, icb / icb0: the last one wins (a callback, or nil: no callback)
 //	am / am0: the last one wins (WithAllowMissing(true/false))
 //	mum=<mask>: adds the paths to the update mask in force at that point; nothing if there is none
 //	mw=<mask>: the masks of all mw options are united
@@ -44,6 +45,10 @@ func resolve(op Op) Op {
 			on["am"] = true
 		case "am0":
 			delete(on, "am")
+		case "ccb0":
+			delete(on, "ccb")
+		case "icb0":
+			delete(on, "icb")
 		case "xa", "cia", "gid", "nw", "ccb", "icb", "uo":
 			on[k] = true
 		case "uo0":
